@@ -535,3 +535,21 @@ class StreamMonitor:
         if S[self.i_v] and S[self.i_r]:
             self.n += 1
             self.on_xfer({f: S[i] for f, i in self.fields})
+
+
+class StateSampler:
+    """Reach measure: set of distinct tuples of the given signals (FSM states, handshake bits) seen at any cycle."""
+
+    def __init__(self, sim, signals, domain="sys", cap=5000):
+        self.idx = [sim.index(x) for x in signals]
+        self.seen = set()
+        self.cap = cap
+        sim.add_agent(domain, self)
+
+    def __call__(self, sim):
+        if len(self.seen) < self.cap:
+            S = sim.S
+            self.seen.add(tuple(S[i] for i in self.idx))
+
+    def states(self, prefix):
+        return ["%s%r" % (prefix, t) for t in sorted(self.seen)]
